@@ -151,6 +151,15 @@ def drop_binds(t):
                 else:
                     flat.append(x)
             return ('and',) + tuple(flat)
+        if t[0] == 'or':
+            # a conjunction that collapsed to a disjunction is absorbed by the enclosing disjunction
+            flat = []
+            for x in kids:
+                if isinstance(x, tuple) and x[:1] == ('or',):
+                    flat.extend(x[1:])
+                else:
+                    flat.append(x)
+            kids = flat
         return (t[0],) + tuple(kids)
     return t
 
